@@ -9,5 +9,6 @@ import TsVerif.C16.Props
 #print axioms TsVerif.C16.closure_always_converges
 #print axioms TsVerif.C16.derive_sound_partial
 #print axioms TsVerif.C16.derive_entry_fields_partial
+#print axioms TsVerif.C16.collapse_preserves_admitted
 #print axioms TsVerif.C16.name_roundtrip
 #print axioms TsVerif.C16.field_roundtrip
